@@ -164,6 +164,47 @@ class Recs(Harness):
         return label
 
 
+class Ssh1Recs(Harness):
+    """SSH-1 report of a recognised server (all 128 cipher masks): every advertised cipher that the report rates with a failure or warning is recommended for
+    removal, every removal names an advertised and so rated cipher, nothing is recommended both ways."""
+    prop, ob = PROP, 'O1'
+    width = 64
+    name = 'ssh1-recs'
+    enum_cap = 200
+
+    def inputs(self):
+        return {'mask': zx.fresh_int('mask', 0, 0x7F)}
+
+    def run(self, M, inp):
+        mask = inp['mask']
+        mask = mask if isinstance(mask, int) else zx.cur().concretize(mask.e)
+        pkm = M.ssh1_publickeymessage.SSH1_PublicKeyMessage(b'\x00' * 8, (768, 3, 5), (1024, 3, 7), 2, mask, 0x0C)
+        r = OL.run_output(M, None, sw='OpenSSH_3.4p1', pkm=pkm, protocol=(1, 5))
+        if isinstance(r['ret'], Exc):
+            return {'exc': r['ret']}
+        rated = [(h, l) for c, h, l, t in OL.parse_alg_lines(r['lines']) if c == 'enc']
+        recs = []
+        for ln in r['lines']:
+            if OL._starts(ln, '(rec) '):
+                body = ln[6:]
+                recs.append((body[0], body[1:].split(' ')[0], 'enc algorithm' in body))
+        return {'rated': rated, 'recs': recs, 'ciphers': list(pkm.supported_ciphers)}
+
+    def check(self, inp, obs):
+        if 'exc' in obs:
+            yield 'no-exception', False
+            return
+        from vf.harness import mods
+        db1 = mods()[1].ssh1_kexdb.SSH1_KexDB.MASTER_DB['enc']
+        # rated, and known to the database as a server-side algorithm of the identified version (OpenSSH 3.4)
+        bad = sorted(set(h for h, l in obs['rated'] if l in ('fail', 'warn') and h in db1 and available(db1[h], 'OpenSSH', '3.4') in (None, True)))
+        dels = sorted(n for sign, n, enc in obs['recs'] if enc and sign in '-!')
+        adds = sorted(n for sign, n, enc in obs['recs'] if enc and sign == '+')
+        yield 'rated-ciphers-are-recommended-for-removal', all(b in dels for b in bad)
+        yield 'removals-are-advertised-and-rated', all(d in bad for d in dels)
+        yield 'additions-are-not-advertised', not any(a in obs['ciphers'] for a in adds)
+
+
 class TwoServers(Harness):
     """two servers of the same product at two symbolic versions audited one after the other in one process: the second report's recommendations equal those
     of a fresh process (availability must depend on THIS server's version only)."""
@@ -257,11 +298,14 @@ def tasks(tier):
                 T.append(TwoServers(prod, va, sb, lead))
         else:
             T.append(TwoServers(prod, va, sb))
+    T.append(Ssh1Recs())
     T.append(max_warn_count)
     return T
 
 
 def harness_by_name(name, params):
+    if name.split(':')[1].startswith('ssh1-recs'):
+        return Ssh1Recs()
     if name.split(':')[1].startswith('twoservers'):
         return TwoServers(params['product'], params['va'], params['sb'], params.get('lead'))
     return Recs(params['product'], params['vshape'], params['sset'], params.get('lead'))
